@@ -1543,3 +1543,11 @@ Proof. vm_compute. split; reflexivity. Qed.
 Example ex_noise_progress_nonvacuous :
   uniq [0; 1; 0; 1; 2; 2] = zrange 0 3 /\ p_ok 6 (1 # 2) = true /\ (forall lab, In lab (uniq [0; 1; 0; 1; 2; 2]) -> 2 <= countZ lab [0; 1; 0; 1; 2; 2]).
 Proof. split; [reflexivity|]. split; [reflexivity|]. intros lab H. cbn in H. destruct H as [<-|[<-|[<-|[]]]]; vm_compute; discriminate. Qed.
+
+(* fix 501d3c0 (cumulative per-label offsets).  The slices as first read (previous count instead of the cumulative offset, last
+   row dropped) leave a one-member class with an empty value set: the recorded run of the old code raises, the repaired
+   slices return a noised column within the clauses (1 <= floor(4/4) change, a value of the feature). *)
+Lemma noise_slices_prefix_refuted :
+  noise_cat false [[0; 4; 2; 1]] [0; 0; 1; 0] (1 # 4) 1 [0; 1; 3; 2] [AIdx 4 [1]; AInt 1 0] = Raises /\
+  noise_cat true [[0; 4; 2; 1]] [0; 0; 1; 0] (1 # 4) 1 [0; 1; 3; 2] [AIdx 4 [1]; AVal 2] = Ok [[0; 2; 2; 1]].
+Proof. vm_compute. split; reflexivity. Qed.
